@@ -277,7 +277,10 @@ def body(case, ctx):
         return
     secrets = dict((n, t) for n, (t, k) in tokens.items() if 'secret' in n)
     plain = dict((n, (t, k)) for n, (t, k) in tokens.items() if 'secret' not in n)
-    repr_fails = any(k.startswith('reprraises') for n, (t, k) in plain.items()) or 'bad-repr' in case['mws']
+    # a resource whose repr fails makes the resources section itself uncomputable (reported inline, visibility not demanded);
+    # a failure in a *sibling* section (a middleware with a failing repr) must not take the resources section with it
+    repr_fails = any(k.startswith('reprraises') for n, (t, k) in tokens.items())
+    sibling_fails = 'bad-repr' in case['mws']
     forbidden = [t for t in secrets.values()] + [KEY]
     views = {}
     for view, path in (('html', prefix + '/'), ('json', prefix + '/json/')):
@@ -346,7 +349,9 @@ def body(case, ctx):
     ctx.event('depth-%d' % case['depth'])
     if repr_fails:
         ctx.event('repr-fails')
-    if (secrets and plain) or repr_fails:
+    if sibling_fails:
+        ctx.event('sibling-section-fails' + ('' if repr_fails else '-resources-checked'))
+    if (secrets and plain) or repr_fails or sibling_fails:
         ctx.nt(rc, sample=len(ctx.samples) < 3)
 
 
